@@ -690,11 +690,16 @@ func (exec *Executor) executeNumericItemMethod(
 			ErrVerbose, node,
 		))
 	case int64:
-		num = intCallback(val)
+		if val == math.MinInt64 {
+			// The absolute value would overflow; use the double result.
+			num = floatCallback(float64(val))
+		} else {
+			num = intCallback(val)
+		}
 	case float64:
 		num = floatCallback(val)
 	case json.Number:
-		if integer, err := val.Int64(); err == nil {
+		if integer, err := val.Int64(); err == nil && integer != math.MinInt64 {
 			num = intCallback(integer)
 		} else if float, err := val.Float64(); err == nil {
 			num = floatCallback(float)
